@@ -94,6 +94,7 @@ type partition struct {
 	shard                tsdb.Shard
 	closed               *atomic.Bool
 	replicators          map[models.NodeID]Replicator
+	replicatorLoops      map[models.NodeID]Replicator // replicators which have a running replica loop
 	cancel               context.CancelFunc
 	statistics           *metrics.StorageWriteAheadLogStatistics
 	running              *atomic.Bool
@@ -129,6 +130,7 @@ func NewPartition(
 		cliFct:               cliFct,
 		stateMgr:             stateMgr,
 		replicators:          make(map[models.NodeID]Replicator),
+		replicatorLoops:      make(map[models.NodeID]Replicator),
 		statistics:           metrics.NewStorageWriteAheadLogStatistics(shard.Database().Name(), shard.ShardID().String()),
 		replicatorStatistics: make(map[models.NodeID]*metrics.StorageReplicatorRunnerStatistics),
 		logger:               logger.GetLogger("Replica", "Partition"),
@@ -285,13 +287,44 @@ func (p *partition) StartReplica() {
 	}
 }
 
-// replicaLoop starts replica loop
+// replicaLoop starts the replica loop of each replicator.
+// Consume blocks a replicator which is at the head of the log until the next append,
+// so replicators cannot share one loop: a lagging, disconnected or newly built
+// replicator would be starved until new data is written.
 func (p *partition) replicaLoop() {
-	for p.running.Load() {
-		for nodeID, replicator := range p.replicators {
+	p.mutex.Lock()
+	defer p.mutex.Unlock()
+
+	for nodeID, replicator := range p.replicators {
+		p.startReplicatorLoop(nodeID, replicator)
+	}
+}
+
+// startReplicatorLoop starts the replica loop of the replicator if it's not running(caller must hold the mutex).
+func (p *partition) startReplicatorLoop(nodeID models.NodeID, replicator Replicator) {
+	if current, ok := p.replicatorLoops[nodeID]; ok && current == replicator {
+		return
+	}
+	p.replicatorLoops[nodeID] = replicator
+	go func() {
+		for p.running.Load() && p.isActiveReplicator(nodeID, replicator) {
 			p.replica(nodeID, replicator)
 		}
-	}
+		p.mutex.Lock()
+		if current, ok := p.replicatorLoops[nodeID]; ok && current == replicator {
+			delete(p.replicatorLoops, nodeID)
+		}
+		p.mutex.Unlock()
+	}()
+}
+
+// isActiveReplicator checks if the replicator is still registered under the partition.
+func (p *partition) isActiveReplicator(nodeID models.NodeID, replicator Replicator) bool {
+	p.mutex.Lock()
+	defer p.mutex.Unlock()
+
+	current, ok := p.replicators[nodeID]
+	return ok && current == replicator
 }
 
 // replica tries to consume message
@@ -461,6 +494,9 @@ func (p *partition) buildReplica(leader, replica models.NodeID) error {
 	replicators[replica] = replicator
 	p.replicators = replicators
 
+	if p.running.Load() {
+		p.startReplicatorLoop(replica, replicator)
+	}
 	return nil
 }
 
